@@ -29,6 +29,8 @@ def emit_subject_methods(d: Decl):
     m = []
     is_str = inner.fam == "string"
     hv = d.has_validation
+    if any(t.startswith("poke=") for t in d.tags):
+        m.append("fn poke(&self, v: i64) -> bool { LIMIT_CELL.store(v, ::core::sync::atomic::Ordering::SeqCst); true }")
     # ---- ctor
     if hv:
         m.append("fn ctor(&self, raw: &nvrt::Value) -> nvrt::Obs { let x: Inner = nvrt::Conv::from_value(raw); nvrt::obs(move || TT::try_new(x), inner_of, vname) }")
